@@ -62,6 +62,48 @@ Definition run_mcase (c : mcase) : list (list Z) :=
   mrun_obs cfg (minit (pick gen_membrane_sigs (mc_builtin c) ++ mc_custom c) (mc_threshold c) (mc_t0 c))
            (mc_ops c).
 
+(* ---- colony cases: several membranes, transfers ----------------------------- *)
+
+Definition sobs (sys : msys) (o : sop) (r : option (nat * mresult)) : list (list Z) :=
+  match o with
+  | SOp i _ =>
+      match nth_error sys i with
+      | None => [ [ -9 ] ]
+      | Some m =>
+          let st := mb_st m in
+          match r with
+          | Some (_, x) =>
+              [ [ Z.of_nat i; b2z (r_allowed x); r_level x; Z.of_nat (length (m_audit st)); m_filtered st;
+                  m_nblocked st; Z.of_nat (length (m_learned st)); Z.of_nat (length (m_blocked st)) ];
+                ids (r_matched x) ]
+          | None => [ [ -1; Z.of_nat i; Z.of_nat (length (m_audit st)); Z.of_nat (length (m_learned st));
+                        m_threshold st ] ]
+          end
+      end
+  | STransfer _ d =>
+      match nth_error sys d with
+      | Some m => [ [ -5; Z.of_nat d; Z.of_nat (length (m_learned (mb_st m))) ] ]
+      | None => [ [ -9 ] ]
+      end
+  | STickAll _ => [ [ -6 ] ]
+  end.
+
+Fixpoint srun_obs (sys : msys) (ops : list sop) : list (list Z) :=
+  match ops with
+  | [] => []
+  | o :: rest => let '(sys', r) := sys_step sys o in sobs sys' o r ++ srun_obs sys' rest
+  end.
+
+(* per member: builtin indices, custom signatures, threshold, rate_limit, enable_adaptive *)
+Definition mspec := (list nat * list sig * Z * option Z * bool)%type.
+Definition mk_member (t0 : Z) (m : mspec) : member :=
+  let '(b, cust, thr, rate, adaptive) := m in
+  mkMember (mkMC py_cc (fun x => x) rate adaptive) (minit (pick gen_membrane_sigs b ++ cust) thr t0).
+
+Record scase := mkSCase { sc_members : list mspec; sc_t0 : Z; sc_ops : list sop }.
+Definition run_scase (c : scase) : list (list Z) :=
+  srun_obs (map (mk_member (sc_t0 c)) (sc_members c)) (sc_ops c).
+
 (* ---- innate cases -------------------------------------------------------- *)
 
 (* validators: the two transcribed shipped ones, or an oracle whose answer on
@@ -87,7 +129,8 @@ Fixpoint interp_vs (ds : list vdesc) (answers : list verdict) : list validator :
 
 Inductive rop :=
   | RI (op : iop) (answers : list verdict)     (* answers: one per validator, used by VOracle *)
-  | RAddValidator (d : vdesc).
+  | RAddValidator (d : vdesc)
+  | RSibling.     (* an operation on ANOTHER InnateImmunity instance built from the same pattern/validator objects: no effect here *)
 
 Definition iobs (st : istate) (o : option iout) : list (list Z) :=
   match o with
@@ -106,6 +149,7 @@ Fixpoint irun_obs (ds : list vdesc) (st : istate) (ops : list rop) : list (list 
       iobs st' o ++ irun_obs ds st' rest
   | RAddValidator d :: rest =>
       [ -2; Z.of_nat (length ds + 1) ] :: irun_obs (ds ++ [d]) st rest
+  | RSibling :: rest => [ -4 ] :: irun_obs ds st rest
   end.
 
 Record icase := mkICase {
@@ -123,6 +167,7 @@ Definition run_icase (c : icase) : list (list Z) :=
 Inductive case :=
   | CMem (c : mcase)
   | CInn (c : icase)
+  | CSys (c : scase)
   | CShipped (innate : bool) (idx : nat) (contents : list (list Z))
   | CSig (g : sig) (contents : list (list Z)).
 
@@ -130,6 +175,7 @@ Definition run_case (c : case) : list (list Z) :=
   match c with
   | CMem m => run_mcase m
   | CInn i => run_icase i
+  | CSys c => run_scase c
   | CShipped innate idx contents =>
       match nth_error (if innate then gen_innate_sigs else gen_membrane_sigs) idx with
       | Some g => [ map (fun s => b2z (sig_matches py_cc g s)) contents ]
